@@ -317,356 +317,364 @@ let post_import n s =
      | _ -> s)
   | None -> s
 
+(** val visit_list_with :
+    (bool -> node -> st -> node * st) -> bool -> node list -> st -> node
+    list * st **)
+
+let rec visit_list_with rec0 lw l s =
+  match l with
+  | [] -> ([], s)
+  | x :: r ->
+    let (x', s0) = rec0 lw x s in
+    let (r', s1) = visit_list_with rec0 lw r s0 in ((x' :: r'), s1)
+
+(** val visit_jsx_list_with :
+    (bool -> node -> st -> node * st) -> node list -> st -> node list * st **)
+
+let rec visit_jsx_list_with rec0 l s =
+  match l with
+  | [] -> ([], s)
+  | x :: r ->
+    let (x', s0) =
+      match x with
+      | JsxE (_, _, _, _, _, _) -> rec0 false x s
+      | JsxF _ -> rec0 false x s
+      | JAttr (nm, v) ->
+        (match v with
+         | JsxE (_, _, _, _, _, _) ->
+           let (v', s0) = rec0 false v s in ((JAttr (nm, v')), s0)
+         | JsxF _ -> let (v', s0) = rec0 false v s in ((JAttr (nm, v')), s0)
+         | _ -> rec0 true x s)
+      | _ -> rec0 true x s
+    in
+    let (r', s1) = visit_jsx_list_with rec0 r s0 in ((x' :: r'), s1)
+
+(** val visit_stmts_with :
+    (bool -> node -> st -> node * st) -> node list -> st -> node list * st **)
+
+let visit_stmts_with rec0 stmts s =
+  let s0 = enter_scope s in
+  let (stmts', s1) = visit_list_with rec0 true stmts s0 in
+  ((app (pending_decls s1) stmts'), (leave_scope s s1))
+
+(** val visit_switch_fields_with :
+    (bool -> node -> st -> node * st) -> node list -> st -> node list * st **)
+
+let rec visit_switch_fields_with rec0 l s =
+  match l with
+  | [] -> ([], s)
+  | x :: r ->
+    (match x with
+     | Field (k, v) ->
+       (match v with
+        | NArr stmts ->
+          let (stmts', s0) =
+            if sq (String ((Ascii (true, true, false, false, false, true,
+                 true, false)), (String ((Ascii (true, true, true, true,
+                 false, true, true, false)), (String ((Ascii (false, true,
+                 true, true, false, true, true, false)), (String ((Ascii
+                 (true, true, false, false, true, true, true, false)),
+                 (String ((Ascii (true, false, true, false, false, true,
+                 true, false)), (String ((Ascii (true, false, false, false,
+                 true, true, true, false)), (String ((Ascii (true, false,
+                 true, false, true, true, true, false)), (String ((Ascii
+                 (true, false, true, false, false, true, true, false)),
+                 (String ((Ascii (false, true, true, true, false, true, true,
+                 false)), (String ((Ascii (false, false, true, false, true,
+                 true, true, false)), EmptyString)))))))))))))))))))) k
+            then visit_stmts_with rec0 stmts s
+            else visit_list_with rec0 true stmts s
+          in
+          let (r', s1) = visit_switch_fields_with rec0 r s0 in
+          (((Field (k, (NArr stmts'))) :: r'), s1)
+        | _ ->
+          let (x', s0) = rec0 true x s in
+          let (r', s1) = visit_switch_fields_with rec0 r s0 in
+          ((x' :: r'), s1))
+     | _ ->
+       let (x', s0) = rec0 true x s in
+       let (r', s1) = visit_switch_fields_with rec0 r s0 in ((x' :: r'), s1))
+
 (** val visit :
     env -> (node -> st -> node * st) -> (node -> st -> node * st) -> (node ->
     st -> st) -> bool -> node -> st -> node * st **)
 
 let rec visit e hook_call hook_declarator hook_ts_decl lower n s =
-  let visit_list =
-    let rec visit_list lw l s0 =
-      match l with
-      | [] -> ([], s0)
-      | x :: r ->
-        let (x', s1) = visit e hook_call hook_declarator hook_ts_decl lw x s0
-        in
-        let (r', s2) = visit_list lw r s1 in ((x' :: r'), s2)
-    in visit_list
-  in
-  let visit_jsx_list =
-    let rec visit_jsx_list l s0 =
-      match l with
-      | [] -> ([], s0)
-      | x :: r ->
-        let (x', s1) =
-          match x with
-          | JsxE (_, _, _, _, _, _) ->
-            visit e hook_call hook_declarator hook_ts_decl false x s0
-          | JsxF _ ->
-            visit e hook_call hook_declarator hook_ts_decl false x s0
-          | JAttr (nm, v) ->
-            (match v with
-             | JsxE (_, _, _, _, _, _) ->
-               let (v', s1) =
-                 visit e hook_call hook_declarator hook_ts_decl false v s0
-               in
-               ((JAttr (nm, v')), s1)
-             | JsxF _ ->
-               let (v', s1) =
-                 visit e hook_call hook_declarator hook_ts_decl false v s0
-               in
-               ((JAttr (nm, v')), s1)
-             | _ -> visit e hook_call hook_declarator hook_ts_decl true x s0)
-          | _ -> visit e hook_call hook_declarator hook_ts_decl true x s0
-        in
-        let (r', s2) = visit_jsx_list r s1 in ((x' :: r'), s2)
-    in visit_jsx_list
-  in
-  (match n with
-   | NArr l -> let (l', s0) = visit_list true l s in ((NArr l'), s0)
-   | NObj fields ->
-     if sq (String ((Ascii (true, true, false, false, true, false, true,
-          false)), (String ((Ascii (true, true, true, false, true, true,
-          true, false)), (String ((Ascii (true, false, false, true, false,
-          true, true, false)), (String ((Ascii (false, false, true, false,
-          true, true, true, false)), (String ((Ascii (true, true, false,
-          false, false, true, true, false)), (String ((Ascii (false, false,
-          false, true, false, true, true, false)), (String ((Ascii (true,
-          true, false, false, false, false, true, false)), (String ((Ascii
-          (true, false, false, false, false, true, true, false)), (String
-          ((Ascii (true, true, false, false, true, true, true, false)),
-          (String ((Ascii (true, false, true, false, false, true, true,
-          false)), EmptyString)))))))))))))))))))) (ntype n)
-     then let (fields', s0) =
-            let rec go l s0 =
-              match l with
-              | [] -> ([], s0)
-              | x :: r ->
-                (match x with
-                 | NScalar _ ->
-                   let (x', s1) =
-                     visit e hook_call hook_declarator hook_ts_decl true x s0
-                   in
-                   let (r', s2) = go r s1 in ((x' :: r'), s2)
-                 | Field (k, v) ->
-                   (match v with
-                    | NArr stmts ->
-                      if sq (String ((Ascii (true, true, false, false, false,
-                           true, true, false)), (String ((Ascii (true, true,
-                           true, true, false, true, true, false)), (String
-                           ((Ascii (false, true, true, true, false, true,
-                           true, false)), (String ((Ascii (true, true, false,
-                           false, true, true, true, false)), (String ((Ascii
-                           (true, false, true, false, false, true, true,
-                           false)), (String ((Ascii (true, false, false,
-                           false, true, true, true, false)), (String ((Ascii
-                           (true, false, true, false, true, true, true,
-                           false)), (String ((Ascii (true, false, true,
-                           false, false, true, true, false)), (String ((Ascii
-                           (false, true, true, true, false, true, true,
-                           false)), (String ((Ascii (false, false, true,
-                           false, true, true, true, false)),
-                           EmptyString)))))))))))))))))))) k
-                      then let s1 = enter_scope s0 in
-                           let (stmts', s2) = visit_list true stmts s1 in
-                           let stmts'' = app (pending_decls s2) stmts' in
-                           let s3 = leave_scope s0 s2 in
-                           let (r', s4) = go r s3 in
-                           (((Field (k, (NArr stmts''))) :: r'), s4)
-                      else let (v', s1) = visit_list true stmts s0 in
-                           let (r', s2) = go r s1 in
-                           (((Field (k, (NArr v'))) :: r'), s2)
-                    | _ ->
-                      let (x', s1) =
-                        visit e hook_call hook_declarator hook_ts_decl true x
-                          s0
-                      in
-                      let (r', s2) = go r s1 in ((x' :: r'), s2))
-                 | _ ->
-                   let (x', s1) =
-                     visit e hook_call hook_declarator hook_ts_decl true x s0
-                   in
-                   let (r', s2) = go r s1 in ((x' :: r'), s2))
-            in go fields s
-          in
-          ((NObj fields'), s0)
-     else let (fields', s0) = visit_list true fields s in
-          let n' = NObj fields' in
-          let ty = ntype n in
-          if sq (String ((Ascii (true, false, false, true, false, false,
-               true, false)), (String ((Ascii (true, false, true, true,
-               false, true, true, false)), (String ((Ascii (false, false,
-               false, false, true, true, true, false)), (String ((Ascii
-               (true, true, true, true, false, true, true, false)), (String
-               ((Ascii (false, true, false, false, true, true, true, false)),
-               (String ((Ascii (false, false, true, false, true, true, true,
-               false)), (String ((Ascii (false, false, true, false, false,
-               false, true, false)), (String ((Ascii (true, false, true,
-               false, false, true, true, false)), (String ((Ascii (true,
-               true, false, false, false, true, true, false)), (String
-               ((Ascii (false, false, true, true, false, true, true, false)),
-               (String ((Ascii (true, false, false, false, false, true, true,
-               false)), (String ((Ascii (false, true, false, false, true,
-               true, true, false)), (String ((Ascii (true, false, false,
-               false, false, true, true, false)), (String ((Ascii (false,
-               false, true, false, true, true, true, false)), (String ((Ascii
-               (true, false, false, true, false, true, true, false)), (String
-               ((Ascii (true, true, true, true, false, true, true, false)),
-               (String ((Ascii (false, true, true, true, false, true, true,
-               false)), EmptyString)))))))))))))))))))))))))))))))))) ty
-          then (n', (post_import n' s0))
-          else if sq (String ((Ascii (false, true, true, false, true, false,
-                    true, false)), (String ((Ascii (true, false, false,
-                    false, false, true, true, false)), (String ((Ascii
-                    (false, true, false, false, true, true, true, false)),
-                    (String ((Ascii (true, false, false, true, false, true,
-                    true, false)), (String ((Ascii (true, false, false,
-                    false, false, true, true, false)), (String ((Ascii
-                    (false, true, false, false, false, true, true, false)),
-                    (String ((Ascii (false, false, true, true, false, true,
-                    true, false)), (String ((Ascii (true, false, true, false,
-                    false, true, true, false)), (String ((Ascii (false,
-                    false, true, false, false, false, true, false)), (String
-                    ((Ascii (true, false, true, false, false, true, true,
-                    false)), (String ((Ascii (true, true, false, false,
-                    false, true, true, false)), (String ((Ascii (false,
-                    false, true, true, false, true, true, false)), (String
-                    ((Ascii (true, false, false, false, false, true, true,
-                    false)), (String ((Ascii (false, true, false, false,
-                    true, true, true, false)), (String ((Ascii (true, false,
-                    false, false, false, true, true, false)), (String ((Ascii
-                    (false, false, true, false, true, true, true, false)),
-                    (String ((Ascii (true, true, true, true, false, true,
-                    true, false)), (String ((Ascii (false, true, false,
-                    false, true, true, true, false)),
-                    EmptyString)))))))))))))))))))))))))))))))))))) ty
-               then hook_declarator n' s0
-               else if (||)
-                         (sq (String ((Ascii (false, false, true, false,
-                           true, false, true, false)), (String ((Ascii (true,
-                           true, false, false, true, true, true, false)),
-                           (String ((Ascii (true, false, false, true, false,
-                           false, true, false)), (String ((Ascii (false,
-                           true, true, true, false, true, true, false)),
-                           (String ((Ascii (false, false, true, false, true,
-                           true, true, false)), (String ((Ascii (true, false,
-                           true, false, false, true, true, false)), (String
-                           ((Ascii (false, true, false, false, true, true,
-                           true, false)), (String ((Ascii (false, true, true,
-                           false, false, true, true, false)), (String ((Ascii
-                           (true, false, false, false, false, true, true,
-                           false)), (String ((Ascii (true, true, false,
-                           false, false, true, true, false)), (String ((Ascii
-                           (true, false, true, false, false, true, true,
-                           false)), (String ((Ascii (false, false, true,
-                           false, false, false, true, false)), (String
-                           ((Ascii (true, false, true, false, false, true,
-                           true, false)), (String ((Ascii (true, true, false,
-                           false, false, true, true, false)), (String ((Ascii
-                           (false, false, true, true, false, true, true,
-                           false)), (String ((Ascii (true, false, false,
-                           false, false, true, true, false)), (String ((Ascii
-                           (false, true, false, false, true, true, true,
-                           false)), (String ((Ascii (true, false, false,
-                           false, false, true, true, false)), (String ((Ascii
-                           (false, false, true, false, true, true, true,
-                           false)), (String ((Ascii (true, false, false,
-                           true, false, true, true, false)), (String ((Ascii
-                           (true, true, true, true, false, true, true,
-                           false)), (String ((Ascii (false, true, true, true,
-                           false, true, true, false)),
-                           EmptyString))))))))))))))))))))))))))))))))))))))))))))
-                           ty)
-                         (sq (String ((Ascii (false, false, true, false,
-                           true, false, true, false)), (String ((Ascii (true,
-                           true, false, false, true, true, true, false)),
-                           (String ((Ascii (false, false, true, false, true,
-                           false, true, false)), (String ((Ascii (true,
-                           false, false, true, true, true, true, false)),
-                           (String ((Ascii (false, false, false, false, true,
-                           true, true, false)), (String ((Ascii (true, false,
-                           true, false, false, true, true, false)), (String
-                           ((Ascii (true, false, false, false, false, false,
-                           true, false)), (String ((Ascii (false, false,
-                           true, true, false, true, true, false)), (String
-                           ((Ascii (true, false, false, true, false, true,
-                           true, false)), (String ((Ascii (true, false,
-                           false, false, false, true, true, false)), (String
-                           ((Ascii (true, true, false, false, true, true,
-                           true, false)), (String ((Ascii (false, false,
-                           true, false, false, false, true, false)), (String
-                           ((Ascii (true, false, true, false, false, true,
-                           true, false)), (String ((Ascii (true, true, false,
-                           false, false, true, true, false)), (String ((Ascii
-                           (false, false, true, true, false, true, true,
-                           false)), (String ((Ascii (true, false, false,
-                           false, false, true, true, false)), (String ((Ascii
-                           (false, true, false, false, true, true, true,
-                           false)), (String ((Ascii (true, false, false,
-                           false, false, true, true, false)), (String ((Ascii
-                           (false, false, true, false, true, true, true,
-                           false)), (String ((Ascii (true, false, false,
-                           true, false, true, true, false)), (String ((Ascii
-                           (true, true, true, true, false, true, true,
-                           false)), (String ((Ascii (false, true, true, true,
-                           false, true, true, false)),
-                           EmptyString))))))))))))))))))))))))))))))))))))))))))))
-                           ty)
-                    then (n', (hook_ts_decl n' s0))
-                    else (n', s0)
-   | Field (k, v) ->
-     let (v', s0) = visit e hook_call hook_declarator hook_ts_decl true v s in
-     ((Field (k, v')), s0)
-   | BIdent (sym, c, o, t) ->
-     let (t', s0) = visit e hook_call hook_declarator hook_ts_decl true t s in
-     ((BIdent (sym, c, o, t')), s0)
-   | Arr elems -> let (e', s0) = visit_list true elems s in ((Arr e'), s0)
-   | Elem (sp, e0) ->
-     let (e', s0) = visit e hook_call hook_declarator hook_ts_decl true e0 s
-     in
-     ((Elem (sp, e')), s0)
-   | Obj props -> let (p', s0) = visit_list true props s in ((Obj p'), s0)
-   | KV (k, v) ->
-     let (k', s0) = visit e hook_call hook_declarator hook_ts_decl true k s in
-     let (v', s1) = visit e hook_call hook_declarator hook_ts_decl true v s0
-     in
-     ((KV (k', v')), s1)
-   | Computed e0 ->
-     let (e', s0) = visit e hook_call hook_declarator hook_ts_decl true e0 s
-     in
-     ((Computed e'), s0)
-   | Spread e0 ->
-     let (e', s0) = visit e hook_call hook_declarator hook_ts_decl true e0 s
-     in
-     ((Spread e'), s0)
-   | Call (sy, c, f, args, ta) ->
-     let (f', s0) = visit e hook_call hook_declarator hook_ts_decl true f s in
-     let (args', s1) = visit_list true args s0 in
-     hook_call (Call (sy, c, f', args', ta)) s1
-   | Arrow (c, params, body, a, g, tp, rt) ->
-     let (params', s0) = visit_list true params s in
-     let s1 = enter_scope s0 in
-     let (body', s2) =
-       visit e hook_call hook_declarator hook_ts_decl true body s1
-     in
-     let body'' =
-       match arrow_decls s2 with
-       | [] -> body'
-       | n0 :: l ->
-         if is_block body'
-         then body'
-         else Block (N0, (app (n0 :: l) ((mk_return body') :: [])))
-     in
-     let s3 = leave_scope s0 s2 in
-     ((Arrow (c, params', body'', a, g, tp, rt)), s3)
-   | Assign (op, l, r) ->
-     (match l with
-      | BIdent (sym, _, _, _) ->
-        let outer = s.assign_left in
-        let s0 = set_assign_left (Some sym) s in
-        let (l', s1) =
-          visit e hook_call hook_declarator hook_ts_decl true l s0
-        in
-        let (r', s2) =
-          visit e hook_call hook_declarator hook_ts_decl true r s1
-        in
-        ((Assign (op, l', r')), (set_assign_left outer s2))
-      | _ ->
-        let (l', s0) = visit e hook_call hook_declarator hook_ts_decl true l s
-        in
-        let (r', s1) =
-          visit e hook_call hook_declarator hook_ts_decl true r s0
-        in
-        ((Assign (op, l', r')), s1))
-   | Paren e0 ->
-     let (e', s0) = visit e hook_call hook_declarator hook_ts_decl true e0 s
-     in
-     ((Paren e'), s0)
-   | Cond (t, c, a) ->
-     let (t', s0) = visit e hook_call hook_declarator hook_ts_decl true t s in
-     let (c', s1) = visit e hook_call hook_declarator hook_ts_decl true c s0
-     in
-     let (a', s2) = visit e hook_call hook_declarator hook_ts_decl true a s1
-     in
-     ((Cond (t', c', a')), s2)
-   | Bin (op, l, r) ->
-     let (l', s0) = visit e hook_call hook_declarator hook_ts_decl true l s in
-     let (r', s1) = visit e hook_call hook_declarator hook_ts_decl true r s0
-     in
-     ((Bin (op, l', r')), s1)
-   | Unary (op, a) ->
-     let (a', s0) = visit e hook_call hook_declarator hook_ts_decl true a s in
-     ((Unary (op, a')), s0)
-   | Member (o, p) ->
-     let (o', s0) = visit e hook_call hook_declarator hook_ts_decl true o s in
-     let (p', s1) = visit e hook_call hook_declarator hook_ts_decl true p s0
-     in
-     ((Member (o', p')), s1)
-   | Block (c, stmts) ->
-     let s0 = enter_scope s in
-     let (stmts', s1) = visit_list true stmts s0 in
-     let stmts'' = app (pending_decls s1) stmts' in
-     ((Block (c, stmts'')), (leave_scope s s1))
-   | JsxE (name, attrs, sc, ta, children, closing) ->
-     let (attrs', s0) = visit_jsx_list attrs s in
-     let (attrs'0, s1) = decouple_attrs attrs' s0 in
-     let (children', s2) = visit_jsx_list children s1 in
-     let n' = JsxE (name, attrs'0, sc, ta, children', closing) in
-     if lower then lower_el e n' s2 else (n', s2)
-   | JsxF children ->
-     let (children', s0) = visit_jsx_list children s in
-     let n' = JsxF children' in if lower then lower_el e n' s0 else (n', s0)
-   | JAttr (nm, v) ->
-     let (v', s0) = visit e hook_call hook_declarator hook_ts_decl true v s in
-     ((JAttr (nm, v')), s0)
-   | JExprC e0 ->
-     let (e', s0) = visit e hook_call hook_declarator hook_ts_decl true e0 s
-     in
-     ((JExprC e'), s0)
-   | JSpreadChild e0 ->
-     let (e', s0) = visit e hook_call hook_declarator hook_ts_decl true e0 s
-     in
-     ((JSpreadChild e'), s0)
-   | _ -> (n, s))
+  match n with
+  | NArr l ->
+    let (l', s0) =
+      visit_list_with (visit e hook_call hook_declarator hook_ts_decl) true l
+        s
+    in
+    ((NArr l'), s0)
+  | NObj fields ->
+    if sq (String ((Ascii (true, true, false, false, true, false, true,
+         false)), (String ((Ascii (true, true, true, false, true, true, true,
+         false)), (String ((Ascii (true, false, false, true, false, true,
+         true, false)), (String ((Ascii (false, false, true, false, true,
+         true, true, false)), (String ((Ascii (true, true, false, false,
+         false, true, true, false)), (String ((Ascii (false, false, false,
+         true, false, true, true, false)), (String ((Ascii (true, true,
+         false, false, false, false, true, false)), (String ((Ascii (true,
+         false, false, false, false, true, true, false)), (String ((Ascii
+         (true, true, false, false, true, true, true, false)), (String
+         ((Ascii (true, false, true, false, false, true, true, false)),
+         EmptyString)))))))))))))))))))) (ntype n)
+    then let (fields', s0) =
+           visit_switch_fields_with
+             (visit e hook_call hook_declarator hook_ts_decl) fields s
+         in
+         ((NObj fields'), s0)
+    else let (fields', s0) =
+           visit_list_with (visit e hook_call hook_declarator hook_ts_decl)
+             true fields s
+         in
+         let n' = NObj fields' in
+         let ty = ntype n in
+         if sq (String ((Ascii (true, false, false, true, false, false, true,
+              false)), (String ((Ascii (true, false, true, true, false, true,
+              true, false)), (String ((Ascii (false, false, false, false,
+              true, true, true, false)), (String ((Ascii (true, true, true,
+              true, false, true, true, false)), (String ((Ascii (false, true,
+              false, false, true, true, true, false)), (String ((Ascii
+              (false, false, true, false, true, true, true, false)), (String
+              ((Ascii (false, false, true, false, false, false, true,
+              false)), (String ((Ascii (true, false, true, false, false,
+              true, true, false)), (String ((Ascii (true, true, false, false,
+              false, true, true, false)), (String ((Ascii (false, false,
+              true, true, false, true, true, false)), (String ((Ascii (true,
+              false, false, false, false, true, true, false)), (String
+              ((Ascii (false, true, false, false, true, true, true, false)),
+              (String ((Ascii (true, false, false, false, false, true, true,
+              false)), (String ((Ascii (false, false, true, false, true,
+              true, true, false)), (String ((Ascii (true, false, false, true,
+              false, true, true, false)), (String ((Ascii (true, true, true,
+              true, false, true, true, false)), (String ((Ascii (false, true,
+              true, true, false, true, true, false)),
+              EmptyString)))))))))))))))))))))))))))))))))) ty
+         then (n', (post_import n' s0))
+         else if sq (String ((Ascii (false, true, true, false, true, false,
+                   true, false)), (String ((Ascii (true, false, false, false,
+                   false, true, true, false)), (String ((Ascii (false, true,
+                   false, false, true, true, true, false)), (String ((Ascii
+                   (true, false, false, true, false, true, true, false)),
+                   (String ((Ascii (true, false, false, false, false, true,
+                   true, false)), (String ((Ascii (false, true, false, false,
+                   false, true, true, false)), (String ((Ascii (false, false,
+                   true, true, false, true, true, false)), (String ((Ascii
+                   (true, false, true, false, false, true, true, false)),
+                   (String ((Ascii (false, false, true, false, false, false,
+                   true, false)), (String ((Ascii (true, false, true, false,
+                   false, true, true, false)), (String ((Ascii (true, true,
+                   false, false, false, true, true, false)), (String ((Ascii
+                   (false, false, true, true, false, true, true, false)),
+                   (String ((Ascii (true, false, false, false, false, true,
+                   true, false)), (String ((Ascii (false, true, false, false,
+                   true, true, true, false)), (String ((Ascii (true, false,
+                   false, false, false, true, true, false)), (String ((Ascii
+                   (false, false, true, false, true, true, true, false)),
+                   (String ((Ascii (true, true, true, true, false, true,
+                   true, false)), (String ((Ascii (false, true, false, false,
+                   true, true, true, false)),
+                   EmptyString)))))))))))))))))))))))))))))))))))) ty
+              then hook_declarator n' s0
+              else if (||)
+                        (sq (String ((Ascii (false, false, true, false, true,
+                          false, true, false)), (String ((Ascii (true, true,
+                          false, false, true, true, true, false)), (String
+                          ((Ascii (true, false, false, true, false, false,
+                          true, false)), (String ((Ascii (false, true, true,
+                          true, false, true, true, false)), (String ((Ascii
+                          (false, false, true, false, true, true, true,
+                          false)), (String ((Ascii (true, false, true, false,
+                          false, true, true, false)), (String ((Ascii (false,
+                          true, false, false, true, true, true, false)),
+                          (String ((Ascii (false, true, true, false, false,
+                          true, true, false)), (String ((Ascii (true, false,
+                          false, false, false, true, true, false)), (String
+                          ((Ascii (true, true, false, false, false, true,
+                          true, false)), (String ((Ascii (true, false, true,
+                          false, false, true, true, false)), (String ((Ascii
+                          (false, false, true, false, false, false, true,
+                          false)), (String ((Ascii (true, false, true, false,
+                          false, true, true, false)), (String ((Ascii (true,
+                          true, false, false, false, true, true, false)),
+                          (String ((Ascii (false, false, true, true, false,
+                          true, true, false)), (String ((Ascii (true, false,
+                          false, false, false, true, true, false)), (String
+                          ((Ascii (false, true, false, false, true, true,
+                          true, false)), (String ((Ascii (true, false, false,
+                          false, false, true, true, false)), (String ((Ascii
+                          (false, false, true, false, true, true, true,
+                          false)), (String ((Ascii (true, false, false, true,
+                          false, true, true, false)), (String ((Ascii (true,
+                          true, true, true, false, true, true, false)),
+                          (String ((Ascii (false, true, true, true, false,
+                          true, true, false)),
+                          EmptyString))))))))))))))))))))))))))))))))))))))))))))
+                          ty)
+                        (sq (String ((Ascii (false, false, true, false, true,
+                          false, true, false)), (String ((Ascii (true, true,
+                          false, false, true, true, true, false)), (String
+                          ((Ascii (false, false, true, false, true, false,
+                          true, false)), (String ((Ascii (true, false, false,
+                          true, true, true, true, false)), (String ((Ascii
+                          (false, false, false, false, true, true, true,
+                          false)), (String ((Ascii (true, false, true, false,
+                          false, true, true, false)), (String ((Ascii (true,
+                          false, false, false, false, false, true, false)),
+                          (String ((Ascii (false, false, true, true, false,
+                          true, true, false)), (String ((Ascii (true, false,
+                          false, true, false, true, true, false)), (String
+                          ((Ascii (true, false, false, false, false, true,
+                          true, false)), (String ((Ascii (true, true, false,
+                          false, true, true, true, false)), (String ((Ascii
+                          (false, false, true, false, false, false, true,
+                          false)), (String ((Ascii (true, false, true, false,
+                          false, true, true, false)), (String ((Ascii (true,
+                          true, false, false, false, true, true, false)),
+                          (String ((Ascii (false, false, true, true, false,
+                          true, true, false)), (String ((Ascii (true, false,
+                          false, false, false, true, true, false)), (String
+                          ((Ascii (false, true, false, false, true, true,
+                          true, false)), (String ((Ascii (true, false, false,
+                          false, false, true, true, false)), (String ((Ascii
+                          (false, false, true, false, true, true, true,
+                          false)), (String ((Ascii (true, false, false, true,
+                          false, true, true, false)), (String ((Ascii (true,
+                          true, true, true, false, true, true, false)),
+                          (String ((Ascii (false, true, true, true, false,
+                          true, true, false)),
+                          EmptyString))))))))))))))))))))))))))))))))))))))))))))
+                          ty)
+                   then (n', (hook_ts_decl n' s0))
+                   else (n', s0)
+  | Field (k, v) ->
+    let (v', s0) = visit e hook_call hook_declarator hook_ts_decl true v s in
+    ((Field (k, v')), s0)
+  | BIdent (sym, c, o, t) ->
+    let (t', s0) = visit e hook_call hook_declarator hook_ts_decl true t s in
+    ((BIdent (sym, c, o, t')), s0)
+  | Arr elems ->
+    let (e', s0) =
+      visit_list_with (visit e hook_call hook_declarator hook_ts_decl) true
+        elems s
+    in
+    ((Arr e'), s0)
+  | Elem (sp, e0) ->
+    let (e', s0) = visit e hook_call hook_declarator hook_ts_decl true e0 s in
+    ((Elem (sp, e')), s0)
+  | Obj props ->
+    let (p', s0) =
+      visit_list_with (visit e hook_call hook_declarator hook_ts_decl) true
+        props s
+    in
+    ((Obj p'), s0)
+  | KV (k, v) ->
+    let (k', s0) = visit e hook_call hook_declarator hook_ts_decl true k s in
+    let (v', s1) = visit e hook_call hook_declarator hook_ts_decl true v s0 in
+    ((KV (k', v')), s1)
+  | Computed e0 ->
+    let (e', s0) = visit e hook_call hook_declarator hook_ts_decl true e0 s in
+    ((Computed e'), s0)
+  | Spread e0 ->
+    let (e', s0) = visit e hook_call hook_declarator hook_ts_decl true e0 s in
+    ((Spread e'), s0)
+  | Call (sy, c, f, args, ta) ->
+    let (f', s0) = visit e hook_call hook_declarator hook_ts_decl true f s in
+    let (args', s1) =
+      visit_list_with (visit e hook_call hook_declarator hook_ts_decl) true
+        args s0
+    in
+    hook_call (Call (sy, c, f', args', ta)) s1
+  | Arrow (c, params, body, a, g, tp, rt) ->
+    let (params', s0) =
+      visit_list_with (visit e hook_call hook_declarator hook_ts_decl) true
+        params s
+    in
+    let s1 = enter_scope s0 in
+    let (body', s2) =
+      visit e hook_call hook_declarator hook_ts_decl true body s1
+    in
+    let body'' =
+      match arrow_decls s2 with
+      | [] -> body'
+      | n0 :: l ->
+        if is_block body'
+        then body'
+        else Block (N0, (app (n0 :: l) ((mk_return body') :: [])))
+    in
+    let s3 = leave_scope s0 s2 in
+    ((Arrow (c, params', body'', a, g, tp, rt)), s3)
+  | Assign (op, l, r) ->
+    (match l with
+     | BIdent (sym, _, _, _) ->
+       let outer = s.assign_left in
+       let s0 = set_assign_left (Some sym) s in
+       let (l', s1) = visit e hook_call hook_declarator hook_ts_decl true l s0
+       in
+       let (r', s2) = visit e hook_call hook_declarator hook_ts_decl true r s1
+       in
+       ((Assign (op, l', r')), (set_assign_left outer s2))
+     | _ ->
+       let (l', s0) = visit e hook_call hook_declarator hook_ts_decl true l s
+       in
+       let (r', s1) = visit e hook_call hook_declarator hook_ts_decl true r s0
+       in
+       ((Assign (op, l', r')), s1))
+  | Paren e0 ->
+    let (e', s0) = visit e hook_call hook_declarator hook_ts_decl true e0 s in
+    ((Paren e'), s0)
+  | Cond (t, c, a) ->
+    let (t', s0) = visit e hook_call hook_declarator hook_ts_decl true t s in
+    let (c', s1) = visit e hook_call hook_declarator hook_ts_decl true c s0 in
+    let (a', s2) = visit e hook_call hook_declarator hook_ts_decl true a s1 in
+    ((Cond (t', c', a')), s2)
+  | Bin (op, l, r) ->
+    let (l', s0) = visit e hook_call hook_declarator hook_ts_decl true l s in
+    let (r', s1) = visit e hook_call hook_declarator hook_ts_decl true r s0 in
+    ((Bin (op, l', r')), s1)
+  | Unary (op, a) ->
+    let (a', s0) = visit e hook_call hook_declarator hook_ts_decl true a s in
+    ((Unary (op, a')), s0)
+  | Member (o, p) ->
+    let (o', s0) = visit e hook_call hook_declarator hook_ts_decl true o s in
+    let (p', s1) = visit e hook_call hook_declarator hook_ts_decl true p s0 in
+    ((Member (o', p')), s1)
+  | Block (c, stmts) ->
+    let (stmts', s0) =
+      visit_stmts_with (visit e hook_call hook_declarator hook_ts_decl) stmts
+        s
+    in
+    ((Block (c, stmts')), s0)
+  | JsxE (name, attrs, sc, ta, children, closing) ->
+    let (attrs', s0) =
+      visit_jsx_list_with (visit e hook_call hook_declarator hook_ts_decl)
+        attrs s
+    in
+    let (attrs'0, s1) = decouple_attrs attrs' s0 in
+    let (children', s2) =
+      visit_jsx_list_with (visit e hook_call hook_declarator hook_ts_decl)
+        children s1
+    in
+    let n' = JsxE (name, attrs'0, sc, ta, children', closing) in
+    if lower then lower_el e n' s2 else (n', s2)
+  | JsxF children ->
+    let (children', s0) =
+      visit_jsx_list_with (visit e hook_call hook_declarator hook_ts_decl)
+        children s
+    in
+    let n' = JsxF children' in if lower then lower_el e n' s0 else (n', s0)
+  | JAttr (nm, v) ->
+    let (v', s0) = visit e hook_call hook_declarator hook_ts_decl true v s in
+    ((JAttr (nm, v')), s0)
+  | JExprC e0 ->
+    let (e', s0) = visit e hook_call hook_declarator hook_ts_decl true e0 s in
+    ((JExprC e'), s0)
+  | JSpreadChild e0 ->
+    let (e', s0) = visit e hook_call hook_declarator hook_ts_decl true e0 s in
+    ((JSpreadChild e'), s0)
+  | _ -> (n, s)
 
 (** val pragma_in_text : nat -> str -> str option **)
 
@@ -1479,16 +1487,9 @@ let transform_module e hook_call hook_declarator hook_ts_decl m = match m with
                      | [] ->
                        let s = search_pragmas e.e_comments st0 in
                        let (items', s0) =
-                         let rec go l3 s0 =
-                           match l3 with
-                           | [] -> ([], s0)
-                           | x :: r ->
-                             let (x', s1) =
-                               visit e hook_call hook_declarator hook_ts_decl
-                                 true x s0
-                             in
-                             let (r', s2) = go r s1 in ((x' :: r'), s2)
-                         in go items s
+                         visit_list_with
+                           (visit e hook_call hook_declarator hook_ts_decl)
+                           true items s
                        in
                        let (items'', s1) = finish_module items' s0 in
                        ((NObj ((Field (kt, ty)) :: ((Field (kb, (NArr
